@@ -184,7 +184,7 @@ def run(chk):
             m.req("volatile c18 %d %d" % (hwlo, hwhi))
             per = []
             for st in range(chk.scale(3, 12)):
-                rs = random.Random(hash((src, st)) & 0xFFFFFF)
+                rs = random.Random(stable_hash(repr((src, st))))
                 env, init, ports, regions = prog.layout(r["vars"])
                 mem = dict(init)
                 for name, (a, nb, v) in regions.items():
